@@ -20,6 +20,7 @@ var baseWeights = map[string]float64{
 	"BankSend": 3,
 	"Anchor":   1.5, "Attest": 1.2, "DefineResolver": 0.8, "RegisterResolver": 1,
 	"_criterion_dates": 0.15,
+	"ICARegister":      0, "ICASubmit": 0,
 }
 
 var dataKinds = []string{"Anchor", "Attest", "DefineResolver", "RegisterResolver"}
@@ -201,6 +202,20 @@ func DrawProfile(property, tier string, r *PRNG) *Profile {
 		p.GenesisK = Pick(r, []string{"default", "seeded", "seeded"})
 		scale(p.Weights, dataKinds, 3)
 		p.MaxTxs = r.Range(30, 120)
+	case "C20":
+		for k := range p.Weights {
+			if k[0] != '_' {
+				p.Weights[k] *= 0.15
+			}
+		}
+		p.Weights["ICARegister"] = 8
+		p.Weights["ICASubmit"] = 22
+		p.Actors = r.Range(2, 5)
+		p.PCrash, p.PTorn, p.PGenesis = 0, 0, 0 // the stub IBC state is not part of the simulated disk
+		p.PHostile = Pick(r, []float64{0.1, 0.2, 0.35})
+		p.PMulti = Pick(r, []float64{0.05, 0.15, 0.3})
+		p.MaxTxs = r.Range(30, 140)
+		p.DtMix = []float64{1, 1, 2, 6, 3, 2, 1, 0.5}
 	case "C18":
 		core(govKinds...)
 		core("CreateClass", "BasketCreate", "Sell", "Buy", "Put", "Take")
